@@ -44,7 +44,10 @@ func runMem(c Case) ev.Verdict {
 	tt, _ := transport.NewTelnetTransport(&transport.TelnetArgs{})
 	conn := &memConn{in: c.wire()}
 
-	if err := negotiate(tt, conn, &transport.Args{TimeoutSocket: time.Second}); err != nil {
+	margs, _ := transport.NewArgs(quietLogger(), "mem")
+	margs.TimeoutSocket = time.Second
+
+	if err := negotiate(tt, conn, margs); err != nil {
 		return ev.Fail("negotiation: %v (opening %s)", err, c.Q)
 	}
 
